@@ -68,3 +68,33 @@ Proof.
     revert L. apply filter_imp. intros q Hq. now rewrite pypow_pos.
   - now apply is_derive_Rpower_comp.
 Qed.
+
+(* --- mean-value consequences used for Lipschitz statements --- *)
+Lemma mvt_upper (f f' : R -> R) (a b D : R) :
+  (forall x, a <= x <= b -> is_derive f x (f' x)) ->
+  (forall x, a <= x <= b -> Rabs (f' x) <= D) ->
+  forall x y, a <= x <= b -> a <= y <= b -> Rabs (f x - f y) <= D * Rabs (x - y).
+Proof.
+  intros Hd Hb x y Hx Hy.
+  destruct (MVT_gen f y x f') as [c [Hc E]].
+  - intros z Hz. apply Hd. unfold Rmin, Rmax in Hz. destruct (Rle_dec y x); lra.
+  - intros z Hz. apply continuity_pt_filterlim. apply (ex_derive_continuous f).
+    eexists. apply Hd. unfold Rmin, Rmax in Hz. destruct (Rle_dec y x); lra.
+  - rewrite E, Rabs_mult. apply Rmult_le_compat_r; [apply Rabs_pos|].
+    apply Hb. unfold Rmin, Rmax in Hc. destruct (Rle_dec y x); lra.
+Qed.
+
+Lemma mvt_lower (f f' : R -> R) (a b c : R) :
+  (forall x, a <= x <= b -> is_derive f x (f' x)) ->
+  (forall x, a <= x <= b -> c <= f' x) -> 0 <= c ->
+  forall x y, a <= x <= b -> a <= y <= b -> c * Rabs (x - y) <= Rabs (f x - f y).
+Proof.
+  intros Hd Hb Hc0 x y Hx Hy.
+  destruct (MVT_gen f y x f') as [z [Hz E]].
+  - intros w Hw. apply Hd. unfold Rmin, Rmax in Hw. destruct (Rle_dec y x); lra.
+  - intros w Hw. apply continuity_pt_filterlim. apply (ex_derive_continuous f).
+    eexists. apply Hd. unfold Rmin, Rmax in Hw. destruct (Rle_dec y x); lra.
+  - rewrite E, Rabs_mult. apply Rmult_le_compat_r; [apply Rabs_pos|].
+    assert (c <= f' z) by (apply Hb; unfold Rmin, Rmax in Hz; destruct (Rle_dec y x); lra).
+    rewrite Rabs_pos_eq; lra.
+Qed.
